@@ -747,6 +747,8 @@ fn junk_string(rng: &mut Rng) -> String {
         "\\u{10FFFF}".into(), "\\uzzzz".into(), "\\\\u0041".into(), "a,b".into(), "a\"b".into(), "a\nb".into(), " ".into(), "\u{3000}".into(),
         "x".repeat(32767), "x".repeat(32768), "あ".repeat(10922), "あ".repeat(10923), "𠮷".repeat(8191), "\\u{41}".repeat(5461),
         "x".repeat(126), "x".repeat(127), "x".repeat(128), "\u{feff}a".into(), "*".into(),
+        // a well-formed escape (slow path of unescape) next to a `\\u` that is NOT an escape and is followed by multi-byte text
+        "\\u0041\\uアイ".into(), "\\u{41}x\\u12ア".into(), "\\u30a2\\uだよ".into(), "\\uアイ".into(), "\\u3ア\\u0041".into(), "\\u{30a2}\\u😀".into(), "あ\\u\\u0041".into(), "\\u0041\\u".into(),
     ];
     rng.pick(&c).clone()
 }
